@@ -511,6 +511,7 @@ func (x *Exec) applyContract(st *State, fr *Frame, ct *Contract, fn *ssa.Functio
 			env[p.Name()] = args[i]
 		}
 	}
+	x.aliasNames(fn, env)
 	old := st.snapshot()
 	// a callee whose contract speaks about now() reads the clock
 	if contractUsesNow(ct) {
@@ -536,6 +537,7 @@ func (x *Exec) applyContract(st *State, fr *Frame, ct *Contract, fn *ssa.Functio
 		res = append(res, v)
 		env[names[i]] = v
 	}
+	x.aliasNames(fn, env)
 	defer func() {
 		for _, v := range res {
 			x.boundReachable(st, v, 0)
@@ -620,6 +622,7 @@ func (x *Exec) verifyBody() {
 		// a captured variable is a pointer to its cell; expose the cell value under the name
 		x.Params["&"+fv.Name()] = v
 	}
+	x.aliasNames(fn, x.Params)
 	fr := x.pushFrame(st, fn, args, bind, nil, "", 0)
 	_ = fr
 	x.Old = st.snapshot()
@@ -684,6 +687,7 @@ func (x *Exec) checkReturn(st *State, fr *Frame, res []Val) {
 	for i, r := range res {
 		env[names[i]] = r
 	}
+	x.aliasNames(fr.Fn, env)
 	x.evalLets(st, x.Old, ct, env)
 	x.assumeFreshOnlyFrames(st)
 	for _, en := range ct.Ensures {
